@@ -4,7 +4,7 @@
 //
 // For generated configurations (failsafe port lists, DefaultEndpointToHostAction, IPIP/VXLAN/Wireguard,
 // allow-action settings, workload prefixes, OpenStack special cases, both IP versions) it calls the REAL
-// rules.NewRenderer(cfg, false) and renders
+// rules.NewRenderer(cfg, nft) for BOTH renderers (iptables and nftables) and renders
 //   - StaticFilterTableChains / StaticRawTableChains / StaticMangleTableChains / StaticFilterForwardAppendRules,
 //   - real dispatch chains (WorkloadDispatchChains, HostDispatchChains, FromHostDispatchChains),
 //   - real endpoint chains (WorkloadEndpointToIptablesChains, HostEndpointToFilterChains, ...ToRawChains,
@@ -24,6 +24,7 @@ import (
 	"math/big"
 	"net"
 	"os"
+	"regexp"
 	"sort"
 	"strings"
 
@@ -32,10 +33,12 @@ import (
 	v3 "github.com/projectcalico/api/pkg/apis/projectcalico/v3"
 
 	"github.com/projectcalico/calico/felix/config"
+	intdataplane "github.com/projectcalico/calico/felix/dataplane/linux"
 	"github.com/projectcalico/calico/felix/environment"
 	"github.com/projectcalico/calico/felix/generictables"
 	"github.com/projectcalico/calico/felix/ipsets"
 	"github.com/projectcalico/calico/felix/iptables"
+	"github.com/projectcalico/calico/felix/nftables"
 	"github.com/projectcalico/calico/felix/proto"
 	"github.com/projectcalico/calico/felix/rules"
 	"github.com/projectcalico/calico/felix/types"
@@ -106,6 +109,7 @@ type fsEntry struct {
 }
 
 type genCfg struct {
+	nft      bool
 	ver      int
 	ml       markLayout
 	prefixes []string
@@ -201,6 +205,7 @@ func genConfig(r *rng) *genCfg {
 	if r.chance(45) {
 		g.ver = 6
 	}
+	g.nft = r.chance(50)
 	g.ml = markLayouts[r.intn(len(markLayouts))]
 	g.prefixes = prefixSets[r.intn(len(prefixSets))]
 	g.fsIn = genFailsafes(r, g.ver)
@@ -278,14 +283,40 @@ var (
 )
 
 type tableAcc struct {
+	nft    bool
+	vmaps  map[string][]string // nft verdict map name fragment -> expansion (leaf rules as Coq terms)
 	name   string
 	names  []string
 	bodies map[string][]string // chain -> parsed rules
 	texts  map[string][]string
 }
 
-func newTable(name string) *tableAcc {
-	return &tableAcc{name: name, bodies: map[string][]string{}, texts: map[string][]string{}}
+func newTable(name string, nft bool) *tableAcc {
+	return &tableAcc{name: name, nft: nft, vmaps: map[string][]string{}, bodies: map[string][]string{}, texts: map[string][]string{}}
+}
+
+var vmapRule = regexp.MustCompile(`^(iifname|oifname) vmap @(\S+)$`)
+
+// one rule -> text by the real renderer of the flavour -> abstract syntax.  An nftables verdict-map rule
+// `iifname vmap @M` is expanded into one exact-interface rule per element of M (the elements are the real
+// DispatchMappings output): a vmap lookup takes the verdict of the one element equal to the key, else continues.
+func renderParse(nft bool, vmaps map[string][]string, rule *generictables.Rule, chain string, ver int, sets map[string]int) (string, []string, error) {
+	if !nft {
+		txt := ipRenderer.RenderAppend(rule, chain, "", features)
+		a, err := parseIptables(txt, ver, sets)
+		return txt, []string{a}, err
+	}
+	txt := nftables.NewNFTRenderer("", uint8(ver)).Render(chain, "", *rule, features).Rule
+	if m := vmapRule.FindStringSubmatch(txt); m != nil {
+		for frag, exp := range vmaps {
+			if strings.HasSuffix(m[2], frag) {
+				return txt, exp, nil
+			}
+		}
+		return txt, nil, fmt.Errorf("verdict map %q has no known contents", m[2])
+	}
+	a, err := parseNft(txt, ver, sets)
+	return txt, []string{a}, err
 }
 
 func (t *tableAcc) add(ver int, sets map[string]int, chs ...*generictables.Chain) {
@@ -301,12 +332,11 @@ func (t *tableAcc) add(ver int, sets map[string]int, chs ...*generictables.Chain
 		}
 		var parsed, texts []string
 		for k := range ch.Rules {
-			txt := ipRenderer.RenderAppend(&ch.Rules[k], ch.Name, "", features)
-			a, err := parseIptables(txt, ver, sets)
+			txt, as, err := renderParse(t.nft, t.vmaps, &ch.Rules[k], ch.Name, ver, sets)
 			if err != nil {
 				fatal("table %s: cannot parse rendered rule %q: %v", t.name, txt, err)
 			}
-			parsed = append(parsed, a)
+			parsed = append(parsed, as...)
 			texts = append(texts, txt)
 		}
 		t.names = append(t.names, ch.Name)
@@ -470,7 +500,7 @@ type world struct {
 	raw       *tableAcc
 	mangle    *tableAcc
 	filter    *tableAcc
-	fwdAppend []string
+	hooks     []string
 	wlChains  map[string]string
 }
 
@@ -485,7 +515,11 @@ func build(r *rng) *world {
 	g := genConfig(r)
 	w := &world{g: g, wlChains: map[string]string{}}
 	ver := g.ver
-	rr := rules.NewRenderer(g.cfg, false)
+	rr := rules.NewRenderer(g.cfg, g.nft)
+	maxLen := iptables.MaxChainNameLength
+	if g.nft {
+		maxLen = nftables.MaxChainNameLength
+	}
 
 	// set names as the renderer writes them -> fixed ids of Model.v
 	ipc := g.cfg.IPSetConfigV4
@@ -499,6 +533,12 @@ func build(r *rng) *world {
 		ipc.NameForMainIPSet(rules.IPSetIDNoFlowOffload):      4,
 		ipc.NameForMainIPSet(rules.IPSetIDNetworkPools):       5,
 		ipc.NameForMainIPSet(rules.IPSetIDDSCPEndpoints):      6,
+	}
+	if g.nft {
+		for n, id := range map[string]int{rules.IPSetIDAllHostNets: 1, rules.IPSetIDAllVXLANSourceNets: 2, rules.IPSetIDThisHostIPs: 3,
+			rules.IPSetIDNoFlowOffload: 4, rules.IPSetIDNetworkPools: 5, rules.IPSetIDDSCPEndpoints: 6} {
+			w.setIDs[nftables.LegalizeSetName(ipc.NameForMainIPSet(n))] = id
+		}
 	}
 	for i := 0; i < 3; i++ {
 		w.hostIPs = append(w.hostIPs, randIP(r, ver))
@@ -539,21 +579,36 @@ func build(r *rng) *world {
 		profIDs = append(profIDs, fmt.Sprintf("prof%d", i))
 	}
 
-	w.raw, w.mangle, w.filter = newTable("raw"), newTable("mangle"), newTable("filter")
+	w.raw, w.mangle, w.filter = newTable("raw", g.nft), newTable("mangle", g.nft), newTable("filter", g.nft)
 	sets := w.setIDs
 
-	// ---- static chains
-	w.filter.add(ver, sets, rr.StaticFilterTableChains(uint8(ver))...)
-	w.raw.add(ver, sets, rr.StaticRawTableChains(uint8(ver))...)
-	w.mangle.add(ver, sets, rr.StaticMangleTableChains(uint8(ver))...)
-	for _, rule := range rr.StaticFilterForwardAppendRules() {
-		rule := rule
-		txt := ipRenderer.RenderAppend(&rule, "FORWARD", "", features)
-		a, err := parseIptables(txt, ver, sets)
-		if err != nil {
-			fatal("cannot parse forward append rule %q: %v", txt, err)
+	// ---- static chains and hook wiring: what the REAL setUpIptablesNormal installs (recording tables)
+	tabs := map[string]*tableAcc{"raw": w.raw, "mangle": w.mangle, "filter": w.filter}
+	tabNum := map[string]int{"raw": 0, "mangle": 1, "filter": 2}
+	for _, call := range intdataplane.VerifC40Wiring(rr, g.nft, uint8(ver)) {
+		t := tabs[call.Table]
+		if t == nil {
+			fatal("wiring: unexpected table %q", call.Table)
 		}
-		w.fwdAppend = append(w.fwdAppend, a)
+		switch call.Op {
+		case "update-chains":
+			t.add(ver, sets, call.Chains...)
+		case "insert-or-append", "append":
+			var rs []string
+			for k := range call.Rules {
+				txt, as, err := renderParse(g.nft, nil, &call.Rules[k], call.Chain, ver, sets)
+				if err != nil {
+					fatal("cannot parse hook rule %q: %v", txt, err)
+				}
+				rs = append(rs, as...)
+			}
+			if strings.ContainsAny(call.Chain, "\"\\") {
+				fatal("kernel chain name %q", call.Chain)
+			}
+			w.hooks = append(w.hooks, fmt.Sprintf("(pair (pair (pair %d \"%s\") %s) %s)", tabNum[call.Table], call.Chain, b(call.Op == "append"), listTerm(rs)))
+		default:
+			fatal("wiring: unexpected operation %q", call.Op)
+		}
 	}
 
 	// ---- policy and profile chains
@@ -593,7 +648,30 @@ func build(r *rng) *world {
 		tiers, groups := normal.tiers(r)
 		addGroups(w.filter, doneF, groups)
 		w.filter.add(ver, sets, rr.WorkloadEndpointToIptablesChains(n, nil, !r.chance(10), tiers, profIDs, nil)...)
-		w.wlChains[n] = rules.EndpointChainName(rules.WorkloadFromEndpointPfx, n, iptables.MaxChainNameLength)
+		w.wlChains[n] = rules.EndpointChainName(rules.WorkloadFromEndpointPfx, n, maxLen)
+	}
+	if g.nft {
+		from, to := rr.DispatchMappings(eps)
+		for frag, mp := range map[string]map[string][]string{rules.NftablesFromWorkloadDispatchMap: from, rules.NftablesToWorkloadDispatchMap: to} {
+			var names []string
+			for n := range mp {
+				names = append(names, n)
+			}
+			sort.Strings(names)
+			exp := []string{}
+			for _, n := range names {
+				v := mp[n]
+				if len(v) != 1 || !strings.HasPrefix(v[0], "goto cali-") || strings.ContainsAny(v[0][5:], " \"\\") {
+					fatal("unexpected verdict map element %q -> %v", n, v)
+				}
+				k := "MInIface"
+				if frag == rules.NftablesToWorkloadDispatchMap {
+					k = "MOutIface"
+				}
+				exp = append(exp, fmt.Sprintf("(Build_irule %s (AGoto \"%s\"))", listTerm([]string{fmt.Sprintf("(%s false %s false)", k, nameBytes(n))}), v[0][5:]))
+			}
+			w.filter.vmaps[nftables.LegalizeSetName(frag)] = exp
+		}
 	}
 	w.filter.add(ver, sets, rr.WorkloadDispatchChains(eps)...)
 
@@ -834,6 +912,9 @@ func (w *world) probes(r *rng) []*pkt {
 		p := base("unknown-wl-est")
 		p.in = unknownName()
 		p.ct = []string{"CtEstablished", "CtRelated"}[r.intn(2)]
+		if len(w.wlNames) > 0 {
+			p.out = w.wlNames[r.intn(len(w.wlNames))] // towards a known workload: met first when its prefix comes earlier
+		}
 		out = append(out, p)
 	}
 	for i := 0; i < 4; i++ {
@@ -891,7 +972,7 @@ func (w *world) caseTerm(ps []*pkt) string {
 		pts = append(pts, p.term())
 	}
 	return fmt.Sprintf("(Build_case %s %s %s %s %s %s %s %s)", w.g.term, w.raw.term(), w.mangle.term(), w.filter.term(),
-		listTerm(w.fwdAppend), listTerm(wl), sets, listTerm(pts))
+		listTerm(w.hooks), listTerm(wl), sets, listTerm(pts))
 }
 
 func main() {
@@ -916,7 +997,11 @@ func main() {
 			stats["probe:"+p.why]++
 		}
 		g := w.g
-		baseTags := []string{fmt.Sprintf("ipv%d", g.ver), "ep-to-host:" + g.cfg.EndpointToHostAction, "filter-allow:" + g.cfg.FilterAllowAction,
+		flav := "flavor:iptables"
+		if g.nft {
+			flav = "flavor:nft"
+		}
+		baseTags := []string{flav, fmt.Sprintf("ipv%d", g.ver), "ep-to-host:" + g.cfg.EndpointToHostAction, "filter-allow:" + g.cfg.FilterAllowAction,
 			"mangle-allow:" + g.cfg.MangleAllowAction, "deny:" + g.cfg.FilterDenyAction,
 			fmt.Sprintf("ipip:%v", g.cfg.IPIPEnabled), fmt.Sprintf("vxlan4:%v", g.cfg.VXLANEnabled), fmt.Sprintf("vxlan6:%v", g.cfg.VXLANEnabledV6),
 			fmt.Sprintf("wireguard-raw:%v", g.wgRaw), fmt.Sprintf("openstack:%v", g.cfg.OpenStackSpecialCasesEnabled),
@@ -925,8 +1010,8 @@ func main() {
 			fmt.Sprintf("failsafe-in:%d", min(len(g.fsIn), 8)), fmt.Sprintf("failsafe-out:%d", min(len(g.fsOut), 8))}
 		for _, cl := range []string{"", "pre-policy", "est-early"} {
 			ps := byClass[cl]
-			if len(ps) == 0 || (cl != "" && i%4 != 0) {
-				continue // the two known deviations are exercised on every 4th configuration only
+			if len(ps) == 0 || (cl != "" && i%3 != 0) {
+				continue // the two known deviations are exercised on every 3rd configuration only
 			}
 			tags := append([]string{}, baseTags...)
 			if cl == "" {
